@@ -842,6 +842,8 @@ func callsToDeep(fn *ssa.Function, depth int, ids ...string) []ssa.CallInstructi
 
 // uniqueFieldStore: fa addresses field F of an object allocated in the same function; when F of that
 // object is stored exactly once in the function, by a store whose block dominates the load, that value.
+// A struct local that is only ever assigned as a whole from another struct local (a by-value copy:
+// `callback := params`) is looked through.
 func uniqueFieldStore(fa *ssa.FieldAddr, load *ssa.UnOp) ssa.Value {
 	base := fa.X
 	for i := 0; i < 4; i++ {
@@ -860,22 +862,34 @@ func uniqueFieldStore(fa *ssa.FieldAddr, load *ssa.UnOp) ssa.Value {
 	if !ok || al.Parent() != load.Parent() {
 		return nil
 	}
-	var found *ssa.Store
-	n := 0
-	refs := al.Referrers()
-	if refs == nil {
+	return fieldValueOf(al, fa.Field, load, 3)
+}
+
+func dominatesInstr(a, b ssa.Instruction) bool {
+	if a.Block() == b.Block() {
+		return instrIndex(a) < instrIndex(b)
+	}
+	return a.Block().Dominates(b.Block())
+}
+
+// fieldValueOf: the value of field `field` of the object al as seen at instruction `at`.
+func fieldValueOf(al *ssa.Alloc, field int, at ssa.Instruction, depth int) ssa.Value {
+	if depth == 0 {
 		return nil
 	}
-	var visit func(v ssa.Value, depth int)
-	visit = func(v ssa.Value, depth int) {
+	var found *ssa.Store
+	n := 0
+	var whole []*ssa.Store
+	var visit func(v ssa.Value, d int)
+	visit = func(v ssa.Value, d int) {
 		rs := v.Referrers()
-		if rs == nil || depth > 3 {
+		if rs == nil || d > 3 {
 			return
 		}
 		for _, r := range *rs {
 			switch x := r.(type) {
 			case *ssa.FieldAddr:
-				if x.X == v && x.Field == fa.Field {
+				if x.X == v && x.Field == field {
 					if frs := x.Referrers(); frs != nil {
 						for _, fr := range *frs {
 							if st, isS := fr.(*ssa.Store); isS && st.Addr == ssa.Value(x) {
@@ -886,13 +900,16 @@ func uniqueFieldStore(fa *ssa.FieldAddr, load *ssa.UnOp) ssa.Value {
 					}
 				}
 			case *ssa.Store:
+				if x.Addr == v && v == ssa.Value(al) {
+					whole = append(whole, x)
+				}
 				// the object's address stored into a local cell: follow the cell's loads
 				if x.Val == v {
 					if cell, isA := x.Addr.(*ssa.Alloc); isA {
 						if crs := cell.Referrers(); crs != nil {
 							for _, cr := range *crs {
 								if ld, isL := cr.(*ssa.UnOp); isL && ld.Op == token.MUL && ld.X == ssa.Value(cell) {
-									visit(ld, depth+1)
+									visit(ld, d+1)
 								}
 							}
 						}
@@ -902,14 +919,27 @@ func uniqueFieldStore(fa *ssa.FieldAddr, load *ssa.UnOp) ssa.Value {
 		}
 	}
 	visit(al, 0)
-	if n != 1 || found == nil {
-		return nil
+	switch {
+	case n == 1 && found != nil && len(whole) == 0:
+		if !dominatesInstr(found, at) {
+			return nil
+		}
+		return found.Val
+	case n == 0 && len(whole) == 1:
+		// by-value copy of another struct local
+		cp := whole[0]
+		if !dominatesInstr(cp, at) {
+			return nil
+		}
+		src := stripConv(cp.Val)
+		if ph, isPhi := src.(*ssa.Phi); isPhi && len(ph.Edges) == 1 {
+			src = ph.Edges[0]
+		}
+		if ld, isL := src.(*ssa.UnOp); isL && ld.Op == token.MUL {
+			if other, isA := ld.X.(*ssa.Alloc); isA && other != al && other.Parent() == al.Parent() {
+				return fieldValueOf(other, field, ld, depth-1)
+			}
+		}
 	}
-	if found.Block() != load.Block() && !found.Block().Dominates(load.Block()) {
-		return nil
-	}
-	if found.Block() == load.Block() && instrIndex(found) > instrIndex(load) {
-		return nil
-	}
-	return found.Val
+	return nil
 }
